@@ -6,6 +6,25 @@ import subprocess
 ROOT = os.path.dirname(os.path.dirname(os.path.abspath(__file__)))
 
 CHECKS = {
+    "C06": dict(
+        technique="TLA+ specification of the time loop (Integrate.tla: t_max padding/truncation, nested checkpoint scan, "
+                  "recordings, returned state) over integer probe dynamics, model-checked by TLC for every layout; every "
+                  "configuration replayed on jx.integrate (eager, jit, vmap over data_stimulate), purity and repeatability compared",
+        category="model_checking", design="4/C06",
+        text="LayoutOrderIsIdentity (every checkpoint_lengths nesting consumes the inputs in order) is an invariant checked by TLC "
+             "for all layouts with entries 1..3, depth <= 2 (thorough 3); the real integrate must return TLC's integer matrix for "
+             "every (input length, t_max, second stimulus, clamp, layout) configuration on 3 backends; jit and vmap runs must "
+             "equal the eager sequential run; the module's tables/inputs/recordings are digest-compared before/after and a "
+             "repeated call must be bit-identical. Purity inside editing histories is additionally checked by C19.",
+        note="Trusted: TLC; integer-exact probe cell. jax.sparse cannot be vmapped (JAX limitation): refused, not compared."),
+    "C07": dict(
+        technique="Integrate.tla invariants Composition and ReturnedStateIsLastReturned model-checked by TLC over all split "
+                  "points and layouts; replay of every split/continuation, returned state and manual stepping on the real code",
+        category="model_checking", design="4/C07",
+        text="For every configuration TLC supplies the expected integer recordings and the state at the last returned time point; "
+             "integrate(return_states=True), continuation with all_states and stepping with build_init_and_step_fn must reproduce "
+             "them. AS_CODED_RET=TRUE is re-run in every check to show that TLC finds F6 from the design (non-vacuity).",
+        note="Known finding F6 (returned state with prod(checkpoint_lengths) > steps) is listed in known_findings.json."),
     "C03": dict(
         technique="TLC-executed abstract interpreter (ExprAbs.tla: affine forms + sign/finiteness domain, partition of the "
                   "voltage axis derived from the traced programs) over the jaxprs of every rate function; per-cell concrete "
